@@ -19,6 +19,7 @@ def sh(cmd, **kw):
 def main():
     pid, wt, k = sys.argv[1], sys.argv[2], sys.argv[3]
     run_all = "--all" in sys.argv
+    offset = int(sys.argv[sys.argv.index("--offset") + 1]) if "--offset" in sys.argv else 0
     src = os.path.join(wt, "_seeded", f"change{k}")
     for f in ("patch.diff", "demo.py"):
         if not os.path.exists(os.path.join(src, f)):
@@ -26,7 +27,7 @@ def main():
             return 2
     tmp = tempfile.mkdtemp(prefix="hgintake_", dir="/tmp")
     w = os.path.join(tmp, "wt")
-    meta = {"id": f"{pid}-{k}", "property": pid, "origin": "independent sub-agent given only the property text and a scratch worktree", "base_commit": sh(["git", "-C", "/repo", "rev-parse", "--short", "HEAD"]).stdout.strip()}
+    meta = {"id": f"{pid}-{int(k) + offset}", "property": pid, "origin": "independent sub-agent given only the property text and a scratch worktree", "base_commit": sh(["git", "-C", "/repo", "rev-parse", "--short", "HEAD"]).stdout.strip()}
     try:
         sh(["git", "-C", "/repo", "worktree", "add", "-q", "--detach", w, "HEAD"], check=True)
         env = {**os.environ, "PYTHONPATH": os.path.join(w, "src")}
@@ -56,7 +57,7 @@ def main():
                 det[c]["harness_error"] = q.stdout[-400:]
         meta["checks"] = det
         meta["detected_by"] = [c for c, d in det.items() if d["violation"]]
-        dst = os.path.join(VERIF, "seeded", f"{pid}-{k}")
+        dst = os.path.join(VERIF, "seeded", f"{pid}-{int(k) + offset}")
         os.makedirs(dst, exist_ok=True)
         for f in ("patch.diff", "demo.py", "notes.md"):
             if os.path.exists(os.path.join(src, f)):
